@@ -251,6 +251,16 @@ func checkC11(c *h.Check) {
 			cases = append(cases, cs)
 		}
 	}
+	// a binding added by a wrapper set around a base set must not be visible to an injector that uses the base set alone
+	for order := 0; order < 2; order++ {
+		for fat := 0; fat < 2; fat++ {
+			prog := leakProgram(0, order, fat == 1)
+			cs := caseFromProgram("C11/"+leakID(0, order, fat == 1), prog, true, map[string]bool{"wiring": true})
+			if c.NoteProgram(cs.Files) {
+				cases = append(cases, cs)
+			}
+		}
+	}
 	// chains: the bound "concrete" type is itself an interface bound in the same set; all consumers share one instance
 	permutations(3, func(perm []int) {
 		for mask := 1; mask < 8; mask++ {
